@@ -117,7 +117,9 @@ def run(shape, args, ctx):
     def do_op(kind, name):
         present = any(n == name for n, _ in registered)
         if kind == 'reg':
-            ret = sched.register_object(objs[name], override if name == 'o2' else None)
+            # a duplicate registration passes the *other* action: it must change nothing
+            action = override if (name == 'o2') != present else None
+            ret = sched.register_object(objs[name], action)
             ctx.require(ret == (not present), 'register_object return value wrong', name)
             if present:
                 ctx.goal('duplicate_registration_refused')
